@@ -26,8 +26,51 @@ COMPONENTS = {"real": ["Aspire.fit / sample_posterior / auto_checkpoint / resume
 BUDGET_S = {"quick": 80, "thorough": 1200}
 
 
+def directed_sequences():
+    """Bounded-exhaustive complement to the seeded search: every TWO-RUN history over a small alphabet -- first run (either SMC
+    sampler, through a context or an explicit path) to completion, optionally a refit on other data, optionally a rebuild by
+    resume_from_file, then a second run (either SMC sampler or importance; fresh, or fresh with the keyword spelt resume_from=None;
+    completed or interrupted at its likelihood call 0 / 2 / 4)."""
+    out = []
+    for ctx in ("auto", "path"):
+        for s1 in ("smc", "emcee_smc"):
+            for refit in (None, "plain", "path_overwrite"):
+                for via_resumed in (False, True):
+                    for s2 in ("smc", "emcee_smc", "importance"):
+                        for rn in (False, True):
+                            for crash in (None, 0, 2, 4):
+                                if s2 == "importance" and (rn or crash not in (None, 0)):
+                                    continue
+                                if via_resumed and refit is not None:
+                                    continue  # a refit between resume_from_file and sampling is not generated (ASSUMPTIONS)
+                                ops = [["fit", {"proc": 0, "data": "A", "with_path": False, "overwrite": False}]]
+                                if ctx == "auto":
+                                    ops.append(["enter_auto", {"proc": 0, "every": 1}])
+                                ops.append(["sample", {"proc": 0, "sampler": s1, "explicit_path": ctx == "path", "crash_at": None, "resume_none": False}])
+                                if refit:
+                                    ops.append(["fit", {"proc": 0, "data": "B", "with_path": refit == "path_overwrite", "overwrite": refit == "path_overwrite"}])
+                                second = 0
+                                if via_resumed:
+                                    ops.append(["resume_and_sample", {"in_context": False, "sampler": None, "override_at": "ctor"}])
+                                    second = 1
+                                ops.append(["sample", {"proc": second, "sampler": s2, "explicit_path": ctx == "path" and not via_resumed,
+                                                       "crash_at": crash, "resume_none": rn}])
+                                out.append(ops)
+    return out
+
+
 def gen_cases(seed, tier):
-    return mc.gen_cases(ID, seed, tier, n_quick=112, n_thorough=640, ex_quick=60, ex_thorough=150, steps=8)
+    cases = mc.gen_cases(ID, seed, tier, n_quick=112, n_thorough=640, ex_quick=60, ex_thorough=150, steps=8)
+    directed = [{"run_index": 50000 + i, "ops": ops, "tier": tier, "directed": True} for i, ops in enumerate(directed_sequences())]
+    # interleave so that a budget-limited quick run still covers both kinds
+    out, di = [], 0
+    per = max(1, len(directed) // max(1, len(cases)) + 1)
+    for c in cases:
+        out.append(c)
+        out.extend(directed[di:di + per])
+        di += per
+    out.extend(directed[di:])
+    return out
 
 
 def run_case(case, workdir):
